@@ -287,6 +287,12 @@ class CFG:
                 todo.append(y)
         return self.EXIT not in seen and self.RAISE in seen
 
+    def exit_requires_edge(self, nid, label):
+        """Every path ENTRY -> EXIT (normal return / fall off the end) takes the `label` edge out of
+        test node `nid`."""
+        avoid_e = {(nid, b, l) for (b, l) in self.succ[nid] if l == label}
+        return self.EXIT not in self.reach(self.ENTRY, avoid_edges=avoid_e)
+
     def returns(self):
         return [n for n in self.kind if self.kind[n] == "return"]
 
